@@ -4,7 +4,7 @@ import linen_prog as LP
 import c01
 from common import cN, cZ, cnat, cbool, clist, copt, cpair
 
-PROOF_FILES = ['Proofs/Linen.v', 'Proofs/LinenInit.v', 'Proofs/LinenChild.v']
+PROOF_FILES = ['Proofs/Linen.v', 'Proofs/LinenInit.v', 'Proofs/LinenChild.v', 'Proofs/LinenShape.v']
 ASSUMPTIONS = c01.ASSUMPTIONS + [
     'PARTIAL: proved are the name-clash, missing/wrong-shape-parameter and auto-naming facts of the reference semantics; "apply(init(...)) needs no initialisation and keeps the '
     'paths", the standalone-child equality and the shape-only agreement are carried by the correspondence (the model predicts each of them) and by oracles',
